@@ -508,7 +508,17 @@ func execScenario(c *runCtx, sc *scenario, eo *execOpts) ([]string, error) {
 	tick := make(chan time.Time)
 	manual := make(chan interface{})
 	if sc.mode == "manual" {
-		opts = append(opts, mpb.WithManualRefresh(manual))
+		// a manual refresh channel wins over WithAutoRefresh, whichever comes first: the container is in manual mode
+		switch sc.k % 3 {
+		case 1:
+			opts = append(opts, mpb.WithAutoRefresh(), mpb.WithManualRefresh(manual))
+			c.count("manual_with_auto_option")
+		case 2:
+			opts = append(opts, mpb.WithManualRefresh(manual), mpb.WithAutoRefresh())
+			c.count("manual_with_auto_option")
+		default:
+			opts = append(opts, mpb.WithManualRefresh(manual))
+		}
 	} else {
 		mpb.VerifSetTick(tick)
 		opts = append(opts, mpb.WithAutoRefresh(), mpb.WithRefreshRate(time.Hour))
